@@ -358,7 +358,10 @@ pub fn replay_case(case: &Value, corpus_dir: &str, scratch: &str, trace: &mut Nd
     runner.run(&cat, &pats, &entries, &res, rec.get("pruned_result").is_some(), "replay", trace, out);
 }
 
-const C16_NAMES: [&str; 36] = [
+const C16_NAMES: [&str; 42] = [
+    // long names with a multi-byte character at byte 46 .. 48 and further on (whatever a tool cuts names to)
+    "aaaaaaaaaaaaaaaaaaaaaaaaaaaaaaaaaaaaaaaaaaaaaaa\u{e9}.txt", "bbbbbbbbbbbbbbbbbbbbbbbbbbbbbbbbbbbbbbbbbbbbbb\u{8a9e}.sol", "ccccccccccccccccccccccccccccccccccccccccccccc\u{1f600}.json", "dddddddddddddddddddddddddddddddddddddddddddddddddddddddddddddddddddddddddddddddddddddddddddddddddddd\u{e9}\u{e9}\u{e9}.t.sol", "\u{8a9e}\u{8a9e}\u{8a9e}\u{8a9e}\u{8a9e}\u{8a9e}\u{8a9e}\u{8a9e}\u{8a9e}\u{8a9e}\u{8a9e}\u{8a9e}\u{8a9e}\u{8a9e}\u{8a9e}\u{8a9e}\u{8a9e}.sol",
+    "\u{5408}\u{7ea6}.sol",
     // eligible names that merely look special (a forge script, a mock, a name with several dots), configuration files
     "Deploy.s.sol", "Mock.m.sol", "v1.2.3.sol", "Test.sol", "test.sol", "Solstat.toml", ".gitignore", "solstat_report.md.old",
     "na\u{ef}ve.md", "\u{65e5}\u{672c}\u{8a9e}.txt", "caf\u{e9}s.txt", "X\u{e9}a.sol", "\u{8a9e}.sol", "\u{e9}t\u{e9}.t.sol",
